@@ -347,6 +347,86 @@ func TestVerifC06(t *testing.T) {
 		c.pf("END")
 	}
 
+	// (3c) a FOREIGN but self-consistent subtree: the next index n has d low
+	// one-bits, i.e. n = I + 2^d - 1 with I having exactly d trailing zeros.
+	// AddNextEntry compares a new element only with the buckets below its
+	// own level, so the 2^d values derived from an arbitrary value at I are
+	// all accepted.  Whatever was accepted must be reproduced exactly
+	// (theorem store_reproduces_accepted); monitor clause reproduce-accepted.
+	for i := 0; i < 10*mult; i++ {
+		root := c.randHash()
+		p := NewRevocationProducer(root)
+		d := uint(1 + c.rng.Intn(5))
+		n := (c.rng.Uint64() & start) | ((uint64(1) << d) - 1)
+		n |= uint64(1) << d // bit d set: I = n - (2^d - 1) has exactly d trailing zeros
+		if i == 0 {
+			n = (uint64(1) << d) - 1 // the very end of the index space: I = 0
+			n |= 0
+		}
+		k0 := start - n
+		base := n - ((uint64(1) << d) - 1)
+		if i == 0 {
+			// I = 0 has 48 trailing zeros: use the whole-level variant only for small d
+			base = 0
+			d = 3
+			n = 7
+			k0 = start - n
+		}
+		c.startCase("subtree", &root, k0)
+		c.load(honestBytes(p, k0))
+		c.state()
+		fr := c.randHash()
+		fake := &element{index: index(base), hash: fr}
+		k := k0
+		okAll := true
+		for t := n; ; t-- {
+			e, err := fake.derive(index(t))
+			if err != nil {
+				panic(err)
+			}
+			if c.add(&e.hash, -1) != "ok" {
+				okAll = false
+				break
+			}
+			k++
+			c.look(k - 1)
+			if k > 1 {
+				c.look(k0 + uint64(c.rng.Int63n(int64(k-k0))))
+			}
+			if k0 > 0 {
+				c.look(uint64(c.rng.Int63n(int64(k0))))
+			}
+			if t == base {
+				break
+			}
+		}
+		c.state()
+		if okAll {
+			for v := k0; v < k+2; v++ {
+				c.look(v)
+			}
+			b := c.enc()
+			c.load(b)
+			c.enc()
+			for v := k0; v < k+1; v++ {
+				c.look(v)
+			}
+			if base > 0 {
+				// the honest continuation: index base-1 is odd (accepted), the
+				// one after it must be refused (it cannot derive the foreign bucket)
+				h := c.prod(p, k)
+				c.add(h, -1)
+				c.look(k)
+				c.look(k - 1)
+				h2 := c.prod(p, k+1)
+				c.add(h2, -1)
+				c.look(k + 1)
+				c.state()
+			}
+		}
+		c.pf("END")
+	}
+
 	// (3b) producer beyond the index space: indexes >= 2^48 (and values with
 	// high bits set) must be refused, never aliased onto an in-range secret.
 	for i := 0; i < 4*mult; i++ {
